@@ -9,7 +9,7 @@ after reopen read-only / after reopen read-write.  REOPEN(ro|rw) is also an
 operation of the alphabet, so a close+reopen is inserted at every point.
 """
 from mc import env  # noqa: F401
-from mc import explorer, walker, ops as O
+from mc import explorer, walker, bfs, ops as O
 from mc.core import R
 
 LEVEL = "model_checking"
@@ -34,10 +34,13 @@ def BOUNDS(tier):
     if tier == "quick":
         return {"rich": {"depth": 1, "alphabet": "full"}, "mini": {"depth": 2, "alphabet": "thin"},
                 "empty": {"depth": 3, "alphabet": "full"}, "handles": ["ABAB"],
+                "states mode (E1s, de-duplicated BFS)": "mini: every state <= 1 thin operation away, every thin operation fired from a byte copy in a fresh session (depth 2 without the same-entity reduction)",
                 "two-handle histories": "mini, depth exactly 3, link/unlink/metadata/definition on one entity (group, tag), patterns ABA and AAB"}
     return {"rich": {"depth": 1, "alphabet": "full"}, "mini": {"depth": 2, "alphabet": "full"},
             
-            "empty": {"depth": 4, "alphabet": "full"}, "handles": ["ABAB", "fresh"]}
+            "empty": {"depth": 4, "alphabet": "full"}, "handles": ["ABAB", "fresh"],
+            "states mode (E1s, de-duplicated BFS)": {"mini": "all canonical states <= 2 thin operations away (3 869), every thin operation from each: depth 3",
+                                                     "empty": "all canonical states <= 4 operations away (11 911), every operation from each: depth 5"}}
 
 
 def handle_cfg(ent):
@@ -68,11 +71,28 @@ def cases(tier):
         add("empty", explorer.enumerate_histories("empty", 4, {}), ["AB"])
         for ent in (["blocks", "blk", "groups", "grp"], ["blocks", "blk", "tags", "tag"], ["blocks", "blk", "data_arrays", "sig"]):
             add("mini", [h for h in explorer.enumerate_histories("mini", 3, handle_cfg(ent)) if len(h) == 3], ["AB", "AAB", "ABB"])
+    # E1s: explicit-state BFS with de-duplication on the canonical state (mc/bfs.py)
+    if tier == "quick":
+        plan = [("mini", 1, "thin")]
+    else:
+        plan = [("mini", 2, "thin"), ("empty", 4, "full")]
+    for seed, depth, cname in plan:
+        states, stats = bfs.enumerate_states(seed, depth, BFS_CFG[cname], cache_key=cname)
+        BFS_STATS["%s/%d/%s" % (seed, depth, cname)] = stats
+        for st in states:
+            out.append(dict(st, mode="expand", cfg=cname))
     return out
+
+
+BFS_CFG = {"thin": THIN, "full": {}}
+BFS_STATS = {}
 
 
 def run_case(case):
     r = R()
+    if case.get("mode") == "expand":
+        bfs.expand_state("C02", case, r, BFS_CFG[case["cfg"]])
+        return r
     r.evals = 1
     explorer.run_history("C02", case, r, check_handles=True)
     if not r.violations:
